@@ -373,6 +373,10 @@ func (x *vc) applyContract(fr *frame, st *state, fc *funcContract, callee *ssa.F
 	}
 	x.bindResults(post, sig, res)
 	for _, e := range fc.ensures {
+		if strings.Contains(e.text, "ret(") {
+			// a postcondition phrased over the callee's own inner calls means nothing at its call sites: not assumed there
+			continue
+		}
 		x.assume(st.guard, x.evalBool(post, e.expr))
 	}
 	for _, out := range copyOuts {
